@@ -183,7 +183,10 @@ def prepare_examples(ctx, extreme_rain=True):
     open(os.path.join(mp, "crop_myP.txt"), "w").write(
         "Field_ID    crp  sowing harvst Rex yld autorg variety comment\n"
         "SOYSM1    SM  05151980 09311980 080 050 0 \n" +
-        "".join("SOYSM1    WW  1010%d 0810%d 000 000 0 \n" % (y, y + 1) for y in range(1980, 1998)) + "end\n")
+        # ... and the LAST rotation entry is harvested in mid-growth inside the traced period (the crop index then points
+        # at the empty slot behind the rotation)
+        "SOYSM1    WW  10101980 08101981 000 000 0 \n"
+        "SOYSM1    WW  10101981 06151982 000 000 0 \n" + "end\n")
     open(os.path.join(mp, "til_myP.txt"), "w").write(
         "Field_ID  Ti Typ date\n          cm\n" + "".join("SOYSM1     %d 1   0901%d\n" % (3 if y % 2 == 0 else 5, y) for y in range(1981, 1998)) + "end\n")
     open(os.path.join(mp, "fert_myP.txt"), "w").write(
